@@ -1950,10 +1950,11 @@ class PGPKey(Armorable, ParentRef, PGPObject):
                 return {KeyFlags.Certify}
 
             else:
-                user = next(iter(self.userids))
+                # the first user id - or, for a key that so far has only a user attribute (a photo), that one
+                user = next(iter(self.userids), None) or next(iter(self.userattributes), None)
 
             # RFC 4880 says that primary keys *must* be capable of certification
-            return {KeyFlags.Certify} | (user.selfsig.key_flags if user.selfsig else set())
+            return {KeyFlags.Certify} | (user.selfsig.key_flags if user is not None and user.selfsig else set())
 
         # a subkey's capabilities are those of its most recent binding signature
         return next(reversed(list(self.self_signatures))).key_flags
@@ -1971,14 +1972,15 @@ class PGPKey(Armorable, ParentRef, PGPObject):
             uid = self.get_uid(user)
 
         else:
-            uid = next(iter(self.userids), None)
+            uid = next(iter(self.userids), None) or next(iter(self.userattributes), None)
             if uid is None and self.parent is not None:
-                uid = next(iter(self.parent.userids), None)
+                uid = next(iter(self.parent.userids), None) or next(iter(self.parent.userattributes), None)
 
         if sig.hash_algorithm is None:
-            sig._signature.halg = next((h for h in uid.selfsig.hashprefs if h.is_supported), HashAlgorithm.SHA256)
+            prefs_ = uid.selfsig.hashprefs if uid is not None and uid.selfsig is not None else []
+            sig._signature.halg = next((h for h in prefs_ if h.is_supported), HashAlgorithm.SHA256)
 
-        if uid is not None and sig.hash_algorithm not in uid.selfsig.hashprefs:
+        if uid is not None and uid.selfsig is not None and sig.hash_algorithm not in uid.selfsig.hashprefs:
             warnings.warn("Selected hash algorithm not in key preferences", stacklevel=4)
 
         # signature options that can be applied at any level
